@@ -85,6 +85,39 @@ def h_reparse(cname, n):
     return h
 
 
+def h_repr_file(cname, nbytes, mutation):
+    """repr of an object built from a file (possibly mutated afterwards) evaluates back to an equal object of the same class"""
+    def h(K):
+        import bitstring
+        from kit import files as F
+        cls = classes()[cname]
+        content = K.choice('content', [b'\xa5\x3c', b'\x00\x00', b'\xff\x01', b'\x80'])
+        fn, rawbits = F.make_file(K, 'p', len(content), concrete=content)
+        try:
+            s = cls(filename=fn)
+            if mutation == 'invert0':
+                s.invert(0)
+            elif mutation == 'append':
+                s.append('0b1')
+            elif mutation == 'clear':
+                s.clear()
+            elif mutation == 'setitem':
+                s[0] = 1 - int(s[0])
+            want = raw(s).copy()
+            rp = call(lambda: repr(s))
+            if not rp.ok:
+                return K.fail('repr raised', exc=rp.excname)
+            e = call(lambda: eval(rp.value, {'Bits': bitstring.Bits, 'BitArray': bitstring.BitArray, 'ConstBitStream': bitstring.ConstBitStream, 'BitStream': bitstring.BitStream}))
+            if not e.ok:
+                return K.fail('eval(repr(s)) raised', exc=e.excname, mutation=mutation)
+            v = e.value
+            return K.check(type(v) is cls and same(raw(v), want), 'eval(repr(s)) of an object built from a file does not rebuild an equal object', mutation=mutation)
+        finally:
+            if not K.symbolic:
+                F.cleanup()
+    return h
+
+
 def h_truncated(cname, n, lsb0=False):
     def h(K):
         import bitarray.util as U
@@ -281,6 +314,33 @@ def h_array_pp(dtype, nbits, fmt, kind, bpg):
     return h
 
 
+def h_no_color_history(steps):
+    """no terminal escape sequences whenever options.no_color is set - whatever the option was during earlier pp() calls"""
+    def h(K):
+        import bitstring
+        s = bitstring.Bits('0xa5c3, 0b101')
+        arr = bitstring.Array('uint8', [1, 2, 3])
+        for t in range(steps):
+            nc = K.bool(f'no_color{t}')
+            which = K.choice(f'pp{t}', ['bits', 'bits-two-formats', 'array', 'bitarray'])
+            bitstring.options.no_color = nc
+            out = io.StringIO()
+            if which == 'bits':
+                r = call(lambda: s.pp('bin8', stream=out))
+            elif which == 'bits-two-formats':
+                r = call(lambda: s.pp('hex8, bin', stream=out))
+            elif which == 'bitarray':
+                r = call(lambda: bitstring.BitArray(s).pp(stream=out))
+            else:
+                r = call(lambda: arr.pp(stream=out))
+            if not r.ok:
+                return K.fail('pp raised', exc=r.excname, step=t)
+            if nc and '\x1b' in out.getvalue():
+                return K.fail('escape sequence in pp output although options.no_color is set', step=t, which=which)
+        return True
+    return h
+
+
 def h_array_repr(dtype, values):
     def h(K):
         import bitstring
@@ -318,6 +378,11 @@ def conditions(tier):
     for c in (['Bits'] if q else ['Bits', 'BitStream']):
         for n in ([5, 32, 33, 35] if q else [0, 5, 31, 32, 33, 34, 35, 36, 65]):
             add(f'C19.str-shape[{c},n={n},lsb0]', h_str_shape(c, n, True), f'all {n}-bit contents (symbolic), all stream positions; options.lsb0 set', n=n)
+    from kit import files as _F
+    for c in CLS:
+        for mutation in (['none'] if c in ('Bits', 'ConstBitStream') else ['none', 'invert0', 'append', 'clear', 'setitem']):
+            conds.append(Cond(f'C19.repr-file[{c},{mutation}]', h_repr_file(c, 2, mutation), 'four concrete files; object built with filename=, then the mutation; eval(repr)', D, {}, timeout=T, format_stub=False, setup=_F.install_fakes))
+    add(f'C19.no-color-history[{3 if q else 4} steps]', h_no_color_history(3 if q else 4), 'every sequence of (no_color setting, pp variant) steps on one interpreter')
     for n in ([1150] if q else [1004, 1150, 2403]):
         for lsb0 in (False, True):
             add(f"C19.pp[Bits,hex:1200,n={n}{',lsb0' if lsb0 else ''}]", h_pp('Bits', n, 'hex:1200', lsb0, ' '), f'width in [0,200] x show_offset; group of 1200 bits: more than 1000 trailing bits; {n}-bit concrete pattern', n=n, fmt='hex:1200')
